@@ -19,6 +19,16 @@ CHECKS = {
             'claim is decided completely, which is the whole of Excel\'s grid.',
             'Trusted: the reference grammar for labels and itertools.product order as the definition of '
             'bijective base-26. Rows "0"/leading-zero rows are not demanded either way.', 'DESIGN.md §5 C19'),
+    'C20': ('explicit-state exploration of on/once/off/emit histories on the real Emitter against an executable '
+            'reference model (tree enumeration to depth 3/4 + state-merging BFS to closure); ' + K1,
+            'Every operation sequence up to depth 3 (quick) / 4 (thorough) over 33 operations - two event names, '
+            'plain, once, context-carrying, falsy and re-entrant callbacks that subscribe, unsubscribe and emit '
+            'during delivery - is executed on a fresh real Emitter and on the reference model and the complete '
+            'listener call logs are compared after every step and after a final probe; a state-merging search over '
+            'model states runs to closure. This decides the property for all histories within those bounds.',
+            'Trusted: the 40-line reference model (ModelEmitter) as the reading of the statement; callbacks compared '
+            'by identity. Beyond depth 4 only the state-merging search applies (merging on model state).',
+            'DESIGN.md §5 C20'),
 }
 
 NOT_YET = 'check not built yet in this session (see DESIGN.md §5 for the planned bounded-exhaustive check)'
